@@ -129,6 +129,10 @@ func checkC20(c *Ctx) {
 			bars = append(bars, bp)
 			barPtrs = append(barPtrs, bp)
 		}
+		// the song end left over from an earlier export must not leak into the new bar starts
+		stale := mkSym(ex.syms.Get("staleSongEnd", 64, true))
+		st.refineSym(stale.T.Syms[0], 0, 1<<40)
+		ex.setField(st, sp, "lastTick", stale)
 		id := ex.newObj(st, &ArrayV{Elem: types.NewPointer(barT), Segs: []Seg{{Elems: barPtrs}}}, nil)
 		n3 := mkConst(3, 64, true)
 		ex.setField(st, sp, "bars", &SliceV{Obj: id, Off: mkConst(0, 64, true), Len: n3, Cap: n3})
